@@ -39,7 +39,7 @@ fn gen_noop(rng: &mut Rng, m: &Model, names: &[String], uid: u32) -> Option<Op> 
             4 if !existing.is_empty() => {
                 let q = *rng.pick(&existing);
                 let next = m.queues[&names[q]].next;
-                if next >= 2 { Some(Op::Append { q, pos: Some(rng.below(next - 1)), lens: vec![rng.below(100) as u32, 3], uid }) } else { None }
+                if next >= 2 { Some(Op::Append { q, pos: Some(if rng.chance(1, 2) { rng.below((next - 1).min(1000)) } else { rng.below(next - 1) }), lens: vec![rng.below(100) as u32, 3], uid }) } else { None }
             }
             5 if !existing.is_empty() => {
                 let q = *rng.pick(&existing);
